@@ -188,6 +188,15 @@ theorem builtin_table : ∀ n ∈ cellmlUnits, builtinMatches n = true := by
 /-- `celsius` is the only unit of the specification's table that is refused -/
 theorem unsupported_is_celsius : unsupportedUnits = ["celsius"] := by decide +kernel
 
+/-! ### 1c. the regular expressions and the schema pattern the namespace model was written for -/
+
+/-- `_WORD` (units.py 66): the model `Units.wordSubst` is a character-level transcription of THIS expression -/
+theorem word_regex_is_modelled : wordRegex = "(?<![0-9.])[a-zA-Z_]+[a-zA-Z0-9_]*" := by decide +kernel
+/-- `_STORE_PREFIX` (units.py 69), which `UnitStore.format` removes (the harness removes it the same way) -/
+theorem store_prefix_regex_is_modelled : storePrefixRegex = "(?<![a-zA-Z0-9_])store[0-9]+_" := by decide +kernel
+/-- the `ident` pattern of the schema: what the generator's identifier shapes and `goodIdent` are measured against -/
+theorem ident_pattern_is_modelled : identPattern = "_*[0-9a-zA-Z][_0-9a-zA-Z]*" := by decide +kernel
+
 /-! ## 2. The work list terminates — for every input, within a known number of passes -/
 
 /-- `_add_units` cannot hang: the loop, a total function by well-founded recursion on
